@@ -62,9 +62,18 @@ def dec(it, vspec, t):
     raise Unsupported(f"map value spec {vspec}")
 
 
+STRKEY = z3.Function("str_key", sym.ArrS, sym.I, sym.I)
+
+
 def key_of(it, k):
     if isinstance(k, VInt):
         return k.t
+    if isinstance(k, VStr):
+        # a string key is abstracted to an integer id that is a function of the string term; two
+        # terms may or may not denote equal strings, so their ids may or may not coincide (sound)
+        v = sym.as_view(k)
+        if z3.eq(z3.simplify(v.lo), z3.IntVal(0)):
+            return STRKEY(v.arr, v.hi)
     raise Unsupported(f"map key {k!r}: only integer (or abstracted string) keys")
 
 
